@@ -82,12 +82,29 @@ def reference_tree(letter):
     return {'C': ('cmp', 'LtE', c, v), 'D': ('cmp', 'LtE', d, v), 'E': ('cmp', 'LtE', ('bin', 'Div', c, n), v), 'F': ('cmp', 'LtE', ('bin', 'Div', d, n), v)}[letter]
 
 
+def bisection_as_count(n):
+    """np.searchsorted(chi2, t) over the ranked chi^2 (the premise of the property: the result is ranked, chi^2 non-decreasing) is the number of fits with
+    chi2 < t (side='left') or chi2 <= t (side='right'); the thresholds of the quantifier avoid equality, so both are #[chi2 < t].  Only the plain form is
+    rewritten - the table is the ranked chi^2 itself and the query does not vary along it; anything else stays as it is (and is left undecided).  What a
+    bisection does with infinite / NaN values is not a polynomial matter: ALG-11x evaluates it in the order numpy sorts by."""
+    def repl(a):
+        if a[0] == 'fn' and a[1] == 'searchsorted' and len(a) in (4, 5) and a[2][0] == 'B' and a[2][1] == R and Poly.from_key(a[2][2]) == sym('chi2', R) and a[3][0] == 'P':
+            t = Poly.from_key(a[3][1])
+            if R not in alg.poly_labels(t):
+                return sum_over(lt(sym('chi2', R), t), R)
+        return None
+    try:
+        return alg.rebuild(n, repl)
+    except Exception:
+        return n
+
+
 def check_nonfinite(ctx, letter, I, n, where):
     """(ALG-11x) the criterion on infinite / NaN chi^2 and on a source without data points: decided on the expression tree the code evaluates, over classes
     of IEEE values (xreal.py) - the quantifier names infinity and NaN, and polynomial identities do not see inf - inf or x / 0."""
     from .. import xreal
     inst = "selector '%s' on infinite / NaN chi2 and n_data == 0" % letter
-    trees = [t for p, kind, t in I.xr_log if kind == 'sum' and p == n]
+    trees = [t for p, kind, t in I.xr_log if kind in ('sum', 'searchsorted') and p == n]
     if not trees:
         ctx.ok('ALG-11x', inst, where, 'not evaluated: the count is not a sum over a comparison tree', nontrivial=False)
         return
@@ -219,7 +236,7 @@ def run(ctx):
             alt_ = iv_ + lt(tot_, iv_) * (tot_ - iv_)
             if alg.is_zero(n - alt_)[0]:
                 ref = alt_
-        compare(ctx, 'ALG-11', "selector '%s' count" % letter, where, Arr((), n), ref, (), vocab=VOCAB, findings=I.findings,
+        compare(ctx, 'ALG-11', "selector '%s' count" % letter, where, Arr((), bisection_as_count(n)), ref, (), vocab=VOCAB, findings=I.findings,
                 detail_ok='n_fits == %s' % alg.show(ref, 140))
         if letter in 'CDEF':
             check_nonfinite(ctx, letter, I, n, where)
@@ -283,6 +300,9 @@ def run(ctx):
 FI = 'sedfitter/fit_info.py'
 SO = 'sedfitter/source/source.py'
 MUST_FIRE = [
+    ('round 13: D located by bisection at chi2[0] + v (inf - inf is NaN and keeps nothing; the bisection keeps every infinite fit)',
+     [(FI, "n_fits = np.sum(self.chi2 - self.chi2[0] <= number)", "n_fits = int(np.searchsorted(self.chi2, self.chi2[0] + number, side='right'))")]),
+    ('round 13: C located by bisection from the wrong end', [(FI, "n_fits = np.sum(self.chi2 <= number)", "n_fits = len(self.chi2) - int(np.searchsorted(self.chi2, number, side='right'))")]),
     ('D rewritten as chi2 <= chi2[0] + v (keeps infinite fits when the best is infinite)', [(FI, "n_fits = np.sum(self.chi2 - self.chi2[0] <= number)", "n_fits = np.sum(self.chi2 <= self.chi2[0] + number)")]),
     ('E rewritten as chi2 <= v * n_data (keeps zero chi2 of a source without data)', [(FI, "n_fits = np.sum((self.chi2 / self.source.n_data) <= number)", "n_fits = np.sum(self.chi2 <= number * self.source.n_data)")]),
     ('n_data remembered from the assignment of the flags', [(SO, "                    self._valid = value\n", "                    self._valid = value\n                    self._n_data = np.sum((value == 1) | (value == 4))\n"),
@@ -305,6 +325,7 @@ MUST_FIRE = [
     ('E multiplies', [(FI, "n_fits = np.sum((self.chi2 / self.source.n_data) <= number)", "n_fits = np.sum((self.chi2 * self.source.n_data) <= number)")]),
 ]
 MUST_SILENT = [
+    ('round 13: C located by bisection in the ranked chi2', [(FI, "n_fits = np.sum(self.chi2 <= number)", "n_fits = int(np.searchsorted(self.chi2, number, side='right'))")]),
     ('round 12: the count of kept fits made a python int', [('sedfitter/fit_info.py', 'n_fits = np.sum(self.chi2 <= number)', 'n_fits = int(np.sum(number >= self.chi2))')]),
     ('comparison flipped', [(FI, "n_fits = np.sum(self.chi2 <= number)", "n_fits = np.sum(number >= self.chi2)")]),
     ('temporary for delta', [(FI, "n_fits = np.sum(self.chi2 - self.chi2[0] <= number)", "delta = self.chi2 - self.chi2[0]\n            n_fits = np.sum(delta <= number)")]),
